@@ -246,7 +246,7 @@ package gkvlite
 //@   modifies mapcontent(deref(v)), new Collection.name, new Collection.store, new Collection.compare, new Collection.rootLock, new Collection.root, new Collection.AppData, new rootNodeLoc.refs, new rootNodeLoc.root, new rootNodeLoc.next, new rootNodeLoc.superseded, new rootNodeLoc.chainedCollection, new rootNodeLoc.chainedRootNodeLoc, new nodeLoc.loc, new nodeLoc.node, new nodeLoc.next, new ploc.Offset, new ploc.Length, new map.ptr, new map.dom, new cell.Int, new mem.byte
 //@   ensures [C03] accepts-iff-well-formed: (err == nil) == jsonOKAt(fbytes[src.file[arr(data)]], src.off[arr(data)] + off(data), len(data))
 //@   ensures err == nil ==> (forall k :: has(deref(v), k) ==> deref(v)[k] != nil && fresh(deref(v)[k]) && deref(v)[k].rootLock != nil && fresh(deref(v)[k].rootLock) && deref(v)[k].root != nil && fresh(deref(v)[k].root) && deref(v)[k].root.refs == 1 && deref(v)[k].root.root != nil && deref(v)[k].root.next == nil && deref(v)[k].root.chainedCollection == nil && deref(v)[k].root.chainedRootNodeLoc == nil && deref(v)[k].store == nil && deref(v)[k].compare == nil)
-//@   ensures err == nil ==> forall j, k {deref(v)[j], deref(v)[k]} :: has(deref(v), j) && has(deref(v), k) && j != k ==> deref(v)[j] != deref(v)[k]
+//@   ensures err == nil ==> forall j, k {deref(v)[j], deref(v)[k]} :: has(deref(v), j) && has(deref(v), k) && j != k ==> deref(v)[j] != deref(v)[k] && deref(v)[j].root != deref(v)[k].root
 
 //@ func (*Store).validateAndSetCollections
 //@   props C03 C02 C08 C17 C19 C12 C07
@@ -260,6 +260,7 @@ package gkvlite
 //@   ensures result != nil ==> s.coll == old(s.coll)
 //@   ensures result == nil ==> s.coll != nil
 //@   ensures [C17,C12] collections-installed: result == nil ==> deref(s.coll) != nil && (forall k :: has(deref(s.coll), k) ==> deref(s.coll)[k] != nil && deref(s.coll)[k].store == s && deref(s.coll)[k].compare == ((s.callbacks.KeyCompareForCollection != nil && kcfc(s.callbacks.KeyCompareForCollection, k) != nil) ? kcfc(s.callbacks.KeyCompareForCollection, k) : funcref("bytes.Compare")) && deref(s.coll)[k].rootLock != nil && deref(s.coll)[k].root != nil && deref(s.coll)[k].root.refs == 1)
+//@   ensures [C12] distinct-versions: result == nil ==> forall a, b {deref(s.coll)[a], deref(s.coll)[b]} :: has(deref(s.coll), a) && has(deref(s.coll), b) && a != b ==> deref(s.coll)[a].root != deref(s.coll)[b].root
 //@   loop 0 modifies Collection.name, Collection.store, Collection.compare
 //@   loop 0 invariant older-collections-untouched: forall c: *Collection {c.name} {c.store} {c.compare} :: !fresh(c) ==> c.name == old(c.name) && c.store == old(c.store) && c.compare == old(c.compare)
 //@   loop 0 invariant [C17] installed-so-far: forall k :: seen(k) ==> has(m, k) && m[k].store == s && m[k].compare == ((s.callbacks.KeyCompareForCollection != nil && kcfc(s.callbacks.KeyCompareForCollection, k) != nil) ? kcfc(s.callbacks.KeyCompareForCollection, k) : funcref("bytes.Compare"))
@@ -855,6 +856,8 @@ package gkvlite
 //@   ensures [C12] registered: result != nil && fresh(result) && s.coll != nil && has(deref(s.coll), name) && deref(s.coll)[name] == result && result.store == s
 //@   ensures [C12] others-kept: forall k :: k != name ==> has(deref(s.coll), k) == old(has(deref(s.coll), k)) && (has(deref(s.coll), k) ==> deref(s.coll)[k] == old(deref(s.coll)[k]))
 //@   ensures [C12] comparator-installed: result.compare == (compare == nil ? funcref("bytes.Compare") : compare)
+//@   relies [C12] distinct-versions: forall a, b {deref(s.coll)[a], deref(s.coll)[b]} :: has(deref(s.coll), a) && has(deref(s.coll), b) && a != b && deref(s.coll)[a] != nil && deref(s.coll)[b] != nil ==> deref(s.coll)[a].root != deref(s.coll)[b].root
+//@   ensures [C12] distinct-versions-kept: forall a, b {deref(s.coll)[a], deref(s.coll)[b]} :: has(deref(s.coll), a) && has(deref(s.coll), b) && a != b && deref(s.coll)[a] != nil && deref(s.coll)[b] != nil ==> deref(s.coll)[a].root != deref(s.coll)[b].root
 //@   ensures [C12] new-name-is-empty: !old(has(deref(s.coll), name)) ==> result.root != nil && fresh(result.root) && result.root.root == emptyNodeLoc
 //@   ensures [C12] existing-keeps-its-version: old(has(deref(s.coll), name)) && old(deref(s.coll)[name]) != nil ==> result.root == old(deref(s.coll)[name].root) && result.rootLock == old(deref(s.coll)[name].rootLock)
 //@   ensures [C12,C04] published-map-not-mutated: map.ptr[old(deref(s.coll))] == old(map.ptr[deref(s.coll)]) && map.dom[old(deref(s.coll))] == old(map.dom[deref(s.coll)])
@@ -869,6 +872,8 @@ package gkvlite
 //@   requires [C07] open-store: s.coll != nil && deref(s.coll) != nil
 //@   relies registered-handles-are-usable: forall k :: has(deref(s.coll), k) && deref(s.coll)[k] != nil ==> deref(s.coll)[k].rootLock != nil && deref(s.coll)[k].store != nil
 //@   modifies s.coll, cell.Int, map.ptr, map.dom, Collection.root, rootNodeLoc.refs, rootNodeLoc.root, rootNodeLoc.next, rootNodeLoc.chainedCollection, rootNodeLoc.chainedRootNodeLoc, node.numNodes, node.numBytes, node.next, itemLoc.loc, itemLoc.item, nodeLoc.loc, nodeLoc.node, nodeLoc.next, mem.ptr, G.freeNodes, G.freeNodeLocs, G.freeRootNodeLocs, AllocStats.CurFreeNodes, AllocStats.FreeNodes, AllocStats.CurFreeNodeLocs, AllocStats.FreeNodeLocs, AllocStats.CurFreeRootNodeLocs, AllocStats.FreeRootNodeLocs, ghost net, ghost tvs
+//@   relies [C12] distinct-versions: forall a, b {deref(s.coll)[a], deref(s.coll)[b]} :: has(deref(s.coll), a) && has(deref(s.coll), b) && a != b && deref(s.coll)[a] != nil && deref(s.coll)[b] != nil ==> deref(s.coll)[a].root != deref(s.coll)[b].root
+//@   ensures [C12] distinct-versions-kept: forall a, b {deref(s.coll)[a], deref(s.coll)[b]} :: has(deref(s.coll), a) && has(deref(s.coll), b) && a != b && deref(s.coll)[a] != nil && deref(s.coll)[b] != nil ==> deref(s.coll)[a].root != deref(s.coll)[b].root
 //@   ensures [C12] removed: s.coll != nil && !has(deref(s.coll), name)
 //@   ensures [C12] others-kept: forall k :: k != name ==> has(deref(s.coll), k) == old(has(deref(s.coll), k)) && (has(deref(s.coll), k) ==> deref(s.coll)[k] == old(deref(s.coll)[k]))
 //@   ensures [C12,C04] published-map-not-mutated: map.ptr[old(deref(s.coll))] == old(map.ptr[deref(s.coll)]) && map.dom[old(deref(s.coll))] == old(map.dom[deref(s.coll)])
